@@ -4,6 +4,10 @@
   path, the switch each handler reads — transcribed from the code).  The effect of an operation that is
   let through is a parameter `base : Path → Res Unit`; it is tied to the real contracts (together with
   the gate table) by the exhaustive `toggles` matrix engine.
+
+  "Every way of invoking" includes invoking a vault operation from INSIDE a flash-loan callback of the
+  same vault (the vault's loan counter is non-zero at that moment): `stepInLoan` / `Op.inLoan`, theorems
+  `disabled_rejected_in_callback`, `inloan_*`.
 -/
 import WW.Proofs.Toggles
 namespace WW.C17
@@ -21,13 +25,19 @@ theorem reachable_lpCw20 {base : Path → Res Unit} {s : St} (h : Reachable base
   cases h0
   rfl
 
-/-- **disabled ⇒ rejected.** When the switch an entry path names is off, the call is rejected, whatever
-    the other switches are and whatever the operation would otherwise do — for every entry path
-    (direct message, cw20 hook, router hop, frontend helper, vault router) of every pool and vault that
-    can exist in the default build. -/
-theorem disabled_rejected (base : Path → Res Unit) (s : St) (hs : Reachable base s)
+/-- between transactions no loan is running -/
+theorem reachable_loans {base : Path → Res Unit} {s : St} (h : Reachable base s) : s.loans = 0 := by
+  obtain ⟨s₀, ops, h0, rfl⟩ := h
+  rw [reach_loans]
+  simp only [instantiate] at h0
+  cases h0
+  rfl
+
+/-- **disabled ⇒ rejected, at any value of the loan counter** — in particular inside a flash-loan
+    callback (`n > 0`), where the message comes from the borrower. -/
+theorem disabled_rejected_in_callback (base : Path → Res Unit) (s : St) (hs : Reachable base s) (n : Nat)
     (p : Path) (sw : Switch) (hn : p.names = some sw) (hoff : s.flags.get sw = false) :
-    stepPath base s p = .err := by
+    stepPath base { s with loans := n } p = .err := by
   have hlp := reachable_lpCw20 hs
   cases hc : p.consults with
   | some sw' =>
@@ -38,6 +48,15 @@ theorem disabled_rejected (base : Path → Res Unit) (s : St) (hs : Reachable ba
   | none =>
     rcases names_not_consulted p sw hn hc with rfl | rfl <;>
       simp [stepPath, gate, Path.consults, entryRejects, hlp]
+
+/-- **disabled ⇒ rejected.** When the switch an entry path names is off, the call is rejected, whatever
+    the other switches are and whatever the operation would otherwise do — for every entry path
+    (direct message, cw20 hook, router hop, frontend helper, vault router) of every pool and vault that
+    can exist in the default build. -/
+theorem disabled_rejected (base : Path → Res Unit) (s : St) (hs : Reachable base s)
+    (p : Path) (sw : Switch) (hn : p.names = some sw) (hoff : s.flags.get sw = false) :
+    stepPath base s p = .err :=
+  disabled_rejected_in_callback base s hs s.loans p sw hn hoff
 
 /-- … and a rejected call moves nothing: the switch state after the failed operation is the state
     before it (balances and the rest of the storage are outside this model; the matrix engine compares
@@ -71,35 +90,38 @@ theorem flip_other_switch (base : Path → Res Unit) (s : St) (p : Path) (sw : S
   exact get_set_other s.flags sw sw' v this
 
 /-- an enabled operation does exactly what it does when nothing was ever paused (unless its entry
-    point rejects it regardless of the switches) -/
+    point rejects it regardless of the switches), outside a flash-loan callback -/
 theorem enabled_runs_underlying (base : Path → Res Unit) (s : St) (p : Path)
-    (hon : ∀ sw, p.names = some sw → s.flags.get sw = true) (hentry : entryRejects s.lpCw20 p = false) :
+    (hon : ∀ sw, p.names = some sw → s.flags.get sw = true) (hentry : entryRejects s.lpCw20 p = false)
+    (hloan : s.loans = 0) :
     stepPath base s p = base p := by
+  have hl : loanRejects s.loans p = false := by rw [hloan]; cases p <;> rfl
   cases hc : p.consults with
   | some sw =>
     have hn := consults_sub_names p sw hc
-    simp [stepPath, gate_of_consults hc, hon sw hn, hentry]
-  | none => simp [stepPath, gate_of_not_consults hc, hentry]
+    simp [stepPath, gate_of_consults hc, hon sw hn, hentry, hl]
+  | none => simp [stepPath, gate_of_not_consults hc, hentry, hl]
 
 /-- **re-enabling restores.** After any history of switch updates and calls, writing the original
     switch values back yields exactly the original state — hence every later call behaves as before. -/
 theorem reenable_restores (base : Path → Res Unit) (s : St) (ops : List Op) :
     reach base s (ops ++ [.setFlags true s.flags]) = s := by
-  have key : ∀ (ops : List Op) (t : St), t.lpCw20 = s.lpCw20 →
+  have key : ∀ (ops : List Op) (t : St), t.lpCw20 = s.lpCw20 → t.loans = s.loans →
       reach base t (ops ++ [.setFlags true s.flags]) = s := by
     intro ops
     induction ops with
     | nil =>
-      intro t ht
+      intro t ht hl
       cases s; cases t
       simp_all [reach, step]
     | cons op ops ih =>
-      intro t ht
+      intro t ht hl
       simp only [List.cons_append, reach]
       split
-      · next t' h => exact ih t' (by rw [step_lpCw20 base t t' op h, ht])
-      · exact ih t ht
-  exact key ops s rfl
+      · next t' h =>
+        exact ih t' (by rw [step_lpCw20 base t t' op h, ht]) (by rw [step_loans base t t' op h, hl])
+      · exact ih t ht hl
+  exact key ops s rfl rfl
 
 /-- consequence: pause, then un-pause ⇒ every path gives the result it gave before the pause -/
 theorem reenable_same_results (base : Path → Res Unit) (s : St) (f : Flags) (p : Path) :
@@ -124,31 +146,166 @@ theorem initial_all_enabled (tf : Bool) (s : St) (h : instantiate tf = .ok s) :
 theorem stranger_cannot_switch (base : Path → Res Unit) (s : St) (f : Flags) :
     step base s (.setFlags false f) = .err := rfl
 
+/-! ### inside a flash-loan callback -/
+
+/-- the switches named by a loan transaction with an inner message: the loan's and the inner one's -/
+def inLoanNames (outer inner : Path) (sw : Switch) : Prop :=
+  outer.names = some sw ∨ inner.names = some sw
+
+/-- a reachable state is reachable under any other choice of the un-modelled outcomes (the switches are
+    written by `setFlags` alone) -/
+theorem reachable_any_base {base base' : Path → Res Unit} {s : St} (hs : Reachable base s) :
+    Reachable base' s := by
+  obtain ⟨s₀, ops, h0, rfl⟩ := hs
+  refine ⟨s₀, [.setFlags true (reach base s₀ ops).flags], h0, ?_⟩
+  have hl := reach_lpCw20 base ops s₀
+  have hn := reach_loans base ops s₀
+  simp only [reach, step]
+  cases hr : reach base s₀ ops with
+  | mk f l n =>
+    rw [hr] at hl hn
+    simp only at hl hn
+    subst hl; subst hn
+    rfl
+
+/-- **the loan itself is paused ⇒ nothing happens**: the transaction is rejected and no inner message is
+    ever sent. -/
+theorem inloan_outer_disabled (base : Path → Res Unit) (s : St) (hs : Reachable base s)
+    (outer inner : Path) (m : Mode) (lb : LoanBase) (sw : Switch) (hn : outer.names = some sw)
+    (hoff : s.flags.get sw = false) :
+    stepInLoan s outer inner m lb = ⟨.err, none⟩ :=
+  stepInLoan_outer_err s outer inner m lb
+    (Or.inr (disabled_rejected (fun _ => .ok ()) s (reachable_any_base hs) outer sw hn hoff))
+
+/-- **the inner operation is paused, plain message**: the inner message is rejected inside the callback
+    exactly as it is outside, its error fails the whole loan, and the state after the failed transaction
+    is the state before it. -/
+theorem inloan_inner_disabled_propagate (base : Path → Res Unit) (s : St) (hs : Reachable base s)
+    (outer inner : Path) (lb : LoanBase) (sw : Switch) (hn : inner.names = some sw)
+    (hoff : s.flags.get sw = false) :
+    stepInLoan s outer inner .propagate lb = ⟨.err, none⟩ ∧
+    step base s (.inLoan outer inner .propagate lb) = .err ∧
+    reach base s [.inLoan outer inner .propagate lb] = s := by
+  have hin := disabled_rejected_in_callback (fun _ => lb.inner) s (reachable_any_base hs)
+    (s.loans + 1) inner sw hn hoff
+  have h1 := stepInLoan_inner_err_propagate s outer inner lb hin
+  refine ⟨h1, ?_, ?_⟩
+  · simp [step, h1]
+  · simp [reach, step, h1]
+
+/-- **the inner operation is paused, caught sub-message**: the borrower never records a success, and
+    the transaction is the loan around a message that fails — its result does not depend on what the
+    inner operation would have done (`lb.inner`, `lb.done`): nothing moved on its account. -/
+theorem inloan_inner_disabled_catch (base : Path → Res Unit) (s : St) (hs : Reachable base s)
+    (outer inner : Path) (lb lb' : LoanBase) (hc : lb'.caught = lb.caught) (sw : Switch)
+    (hn : inner.names = some sw) (hoff : s.flags.get sw = false) :
+    (stepInLoan s outer inner .catch lb).inner ≠ some true ∧
+    stepInLoan s outer inner .catch lb' = stepInLoan s outer inner .catch lb := by
+  have hin := fun b => disabled_rejected_in_callback (fun _ => b) s (reachable_any_base hs)
+    (s.loans + 1) inner sw hn hoff
+  refine ⟨?_, stepInLoan_inner_err_catch_eq s outer inner lb lb' hc (hin _) (hin _)⟩
+  rcases stepInLoan_inner_err_catch s outer inner lb (hin _) with h | h <;> rw [h]
+  · simp
+  · exact finishLoan_false_inner _ _
+
+/-- **frame, inside a callback.** A loan transaction with an inner message depends on the switches only
+    through the one the loan names and the one the inner operation names. -/
+theorem inloan_others_unaffected (s : St) (f' : Flags) (outer inner : Path) (m : Mode) (lb : LoanBase)
+    (hsame : ∀ sw, inLoanNames outer inner sw → f'.get sw = s.flags.get sw) :
+    stepInLoan { s with flags := f' } outer inner m lb = stepInLoan s outer inner m lb := by
+  have ho := others_unaffected (fun _ => .ok ()) s f' outer (fun sw h => hsame sw (Or.inl h))
+  have hi := others_unaffected (fun _ => lb.inner) { s with loans := s.loans + 1 } f' inner
+    (fun sw h => hsame sw (Or.inr h))
+  unfold stepInLoan
+  rw [ho]
+  simp only at hi ⊢
+  rw [hi]
+
+/-- **transcribed from `deposit.rs` / `flash_loan.rs`:** whatever the switches say, a deposit into the
+    lending vault and a second loan from it (direct or through the vault router) never succeed from
+    inside a callback: paused ⇒ `…Disabled`, enabled ⇒ `DepositDuringLoan` / `Unauthorized`. -/
+theorem inloan_deposit_or_loan_never_succeeds (s : St) (outer inner : Path) (m : Mode) (lb : LoanBase)
+    (hin : inner = .vaultDeposit ∨ inner = .vaultFlashLoan ∨ inner = .vaultRouterLoan) :
+    (stepInLoan s outer inner m lb).inner ≠ some true ∧
+    (m = .propagate → (stepInLoan s outer inner m lb).tx = .err) := by
+  have hrej : stepPath (fun _ => lb.inner) { s with loans := s.loans + 1 } inner = .err := by
+    rcases hin with rfl | rfl | rfl <;>
+      exact (stepPath_err_any_base _ (fun _ => .ok ()) _ _ (Or.inr (Or.inr (by simp [loanRejects])))).1
+  cases m with
+  | propagate =>
+    rw [stepInLoan_inner_err_propagate s outer inner lb hrej]
+    exact ⟨by simp, fun _ => rfl⟩
+  | «catch» =>
+    refine ⟨?_, fun h => by cases h⟩
+    rcases stepInLoan_inner_err_catch s outer inner lb hrej with h | h <;> rw [h]
+    · simp
+    · exact finishLoan_false_inner _ _
+
+/-- a withdrawal (cw20 hook) and fee collection are NOT stopped by a running loan: with their switch on
+    they do inside the callback what the code does there (`lb.inner`) -/
+theorem inloan_withdraw_collect_pass (s : St) (outer inner : Path) (lb : LoanBase)
+    (hout : stepPath (fun _ => .ok ()) s outer = .ok ()) (hl : outer.isLoan = true)
+    (hin : (inner = .vaultWithdrawHook ∧ s.flags.b = true) ∨ inner = .vaultCollectFees)
+    (hok : lb.inner = .ok ()) :
+    stepInLoan s outer inner .catch lb = finishLoan lb.done .catch true := by
+  have hpass : stepPath (fun _ => lb.inner) { s with loans := s.loans + 1 } inner = .ok () := by
+    rcases hin with ⟨rfl, hb⟩ | rfl <;>
+      simp [stepPath, gate, Path.consults, Flags.get, entryRejects, loanRejects, *]
+  unfold stepInLoan
+  simp only [hl, hout, hpass]
+  simp
+
+/-- a loan transaction never leaves the counter raised and never writes a switch -/
+theorem inloan_state_unchanged (base : Path → Res Unit) (s s' : St) (outer inner : Path) (m : Mode)
+    (lb : LoanBase) (h : step base s (.inLoan outer inner m lb) = .ok s') : s' = s := by
+  simp only [step] at h
+  split at h
+  · cases h; rfl
+  · cases h
+  · cases h
+
 /-! ### non-vacuity and concrete behaviour -/
 
 /-- a reachable state with withdrawals paused: every withdraw path errs, swap and deposit paths run -/
 example :
     let base : Path → Res Unit := fun _ => .ok ()
-    let s := reach base ⟨Flags.allOn, true⟩ [.setFlags true ⟨true, false, true⟩]
+    let s := reach base ⟨Flags.allOn, true, 0⟩ [.setFlags true ⟨true, false, true⟩]
     (Path.all.filter (fun p => stepPath base s p != .ok ())) =
       [.pairWithdrawHook, .pairWithdrawDirect, .pairSwapDirectCw20,
        .trioWithdrawHook, .trioWithdrawDirect, .trioSwapDirectCw20,
-       .vaultWithdrawHook, .vaultWithdrawDirect] := by decide
+       .vaultWithdrawHook, .vaultWithdrawDirect, .vaultConfigStranger, .vaultCallbackExternal] := by decide
 
-example : Reachable (fun _ => .ok ()) ⟨⟨true, false, true⟩, true⟩ :=
-  ⟨⟨Flags.allOn, true⟩, [.setFlags true ⟨true, false, true⟩], rfl, rfl⟩
+example : Reachable (fun _ => .ok ()) ⟨⟨true, false, true⟩, true, 0⟩ :=
+  ⟨⟨Flags.allOn, true, 0⟩, [.setFlags true ⟨true, false, true⟩], rfl, rfl⟩
 
-/-- all 2^3 combinations × all 24 paths: the model's verdict is `err` exactly when the named switch is
+/-- all 2^3 combinations × all 26 paths: the model's verdict is `err` exactly when the named switch is
     off or the entry point rejects the call (enumerated by the kernel) -/
 example :
     ∀ a b c : Bool, ∀ p ∈ Path.all,
-      (stepPath (fun _ => .ok ()) ⟨⟨a, b, c⟩, true⟩ p == .err) =
+      (stepPath (fun _ => .ok ()) ⟨⟨a, b, c⟩, true, 0⟩ p == .err) =
         ((match p.names with | some sw => !(Flags.get ⟨a, b, c⟩ sw) | none => false) ||
           entryRejects true p) := by decide
 
 /-- Observation outside the buildable feature set (token-factory LP, `lpCw20 = false`): the pools'
     direct `WithdrawLiquidity {}` entry reads no switch, so it runs with withdrawals paused. -/
 example :
-    stepPath (fun _ => .ok ()) ⟨⟨true, false, true⟩, false⟩ .pairWithdrawDirect = .ok () := by decide
+    stepPath (fun _ => .ok ()) ⟨⟨true, false, true⟩, false, 0⟩ .pairWithdrawDirect = .ok () := by decide
+
+/-- inside a callback: all 2^3 combinations × both loan entries × the 8 vault paths as inner message ×
+    both modes, every un-modelled outcome `ok` — the transaction commits iff the loan switch is on and
+    (in `propagate` mode) the inner message is let through; the recorded inner result is a success
+    exactly for the cw20 withdrawal with withdrawals on and for fee collection (enumerated by the kernel) -/
+example :
+    ∀ a b c : Bool, ∀ outer ∈ [Path.vaultFlashLoan, Path.vaultRouterLoan],
+      ∀ inner ∈ Path.all.filter (fun p => p.family == .vault), ∀ m ∈ [Mode.propagate, Mode.catch],
+      let r := stepInLoan ⟨⟨a, b, c⟩, true, 0⟩ outer inner m ⟨.ok (), .ok (), .ok ()⟩
+      let innerOk := (inner == .vaultWithdrawHook && b) || inner == .vaultCollectFees
+      (r.tx == .ok ()) = (c && (m == .catch || innerOk)) ∧
+      r.inner = (if c && m == .catch then some innerOk else none) := by decide
+
+/-- the seeded shape: deposits paused, loans enabled, a deposit sent from the callback — rejected -/
+example :
+    stepInLoan ⟨⟨false, true, true⟩, true, 0⟩ .vaultFlashLoan .vaultDeposit .propagate ⟨.ok (), .ok (), .ok ()⟩
+      = ⟨.err, none⟩ := by decide
 
 end WW.C17
